@@ -273,6 +273,30 @@ def _gen(rnd, depth, toks):
         _gen(rnd, depth - 1, toks)
 
 
+# lower-case names and numerals only: an upper-case letter next to '-' could form
+# one of the past operators (-X, --X)
+_WORD = re.compile(r"^[a-z0-9_]+'?$")
+
+
+def _symbolic(tok):
+    return (not any(ch.isalnum() or ch in '_"\\' for ch in tok)) and tok not in ('(', ')')
+
+
+def _layout(toks, layout):
+    """Blanks dropped between a name / numeral and a symbolic operator next to
+    it: 'tight' on both sides, 'left-blank' only after the operator."""
+    out = [toks[0]]
+    for a, b in zip(toks, toks[1:]):
+        if _WORD.match(a) and _symbolic(b) and not a.endswith("'"):
+            sep = '' if layout == 'tight' else ' '
+        elif _symbolic(a) and _WORD.match(b):
+            sep = ''
+        else:
+            sep = ' '
+        out.append(sep + b)
+    return ''.join(out)
+
+
 def random_sequences(seed, n_seq, depth):
     def run():
         rnd = random.Random(seed)
@@ -283,6 +307,12 @@ def random_sequences(seed, n_seq, depth):
             toks = list()
             _gen(rnd, depth, toks)
             n += _compare(toks, fails, what)
+            # the same tokens written without blanks around symbolic operators ('a-1', 'a -1'):
+            # blanks separate tokens, they are not part of any token
+            for layout in ('tight', 'left-blank'):
+                text = _layout(toks, layout)
+                if text != ' '.join(toks):
+                    n += _compare(toks, fails, what + f' [layout: {layout}]', text=text)
         return _result(n, fails, max_depth=depth, seed=seed)
     return run
 
